@@ -228,6 +228,23 @@ func (s *sim) checkCommittees(box *stateBox, where string) {
 		if !chk("current-sync-committee", box.epc.CurrentSyncCommittee, m.CurrentSyncCommittee) || !chk("next-sync-committee", box.epc.NextSyncCommittee, m.NextSyncCommittee) {
 			return
 		}
+		// at the first slot of a sync-committee period the state's next committee is the one the
+		// specification samples in the epoch transition that just ran: recompute it on the same
+		// content one slot earlier (sync-committee updates are the last step of process_epoch)
+		period := uint64(spec.EPOCHS_PER_SYNC_COMMITTEE_PERIOD) * spe
+		if m.Slot > 0 && m.Slot%period == 0 && s.w.forkIndexAt((m.Slot-1)/spe) >= 1 {
+			m2 := m.Copy()
+			m2.Slot = m.Slot - 1
+			if idx, err := refspec.NextSyncCommitteeIndices(spec, m2); err == nil {
+				s.res.Stat("sync_committee_sampling_checks", 1)
+				for i, vi := range idx {
+					if i >= len(m.NextSyncCommittee.Pubkeys) || m.Validators[vi].Pubkey != m.NextSyncCommittee.Pubkeys[i] {
+						s.viol("C07", "next-sync-committee/sampling", fmt.Sprintf("%s (%s): first slot of a sync period (slot %d): position %d of the state's next sync committee is not validator %d whom the specification samples there", where, m.Fork, m.Slot, i, vi))
+						return
+					}
+				}
+			}
+		}
 	}
 }
 
